@@ -1483,6 +1483,11 @@ pub mod families {
         out.push(("?.a".into(), Expr::attr(a(), "a", true)));
         out.push(("?[0]".into(), Expr::idx(a(), Expr::int(0), true)));
         out.push(("[1:]".into(), Expr::slice(a(), Some(Expr::int(1)), None, None)));
+        // the spellings of "everything": no bound at all, an explicit step of 1, `none` bounds
+        out.push(("[:]".into(), Expr::slice(a(), None, None, None)));
+        out.push(("[::1]".into(), Expr::slice(a(), None, None, Some(Expr::int(1)))));
+        out.push(("[0:]".into(), Expr::slice(a(), Some(Expr::int(0)), None, None)));
+        out.push(("[::-1]".into(), Expr::slice(a(), None, None, Some(Expr::un(UnOp::Neg, Expr::int(1))))));
         out.push(("if-cond".into(), Expr::tern(Expr::str("A"), a(), Expr::str("B"))));
         out
     }
